@@ -618,6 +618,11 @@ def _params_without_symbols(resolver: resolver.ParamResolver) -> Params:
         yield cast(str, sym), cast(float, val)
 
 
+def _is_value_sequence(value: Any) -> bool:
+    # A string value names a parameter; it is a single value, not a sequence of characters.
+    return isinstance(value, Sequence) and not isinstance(value, str)
+
+
 def dict_to_product_sweep(factor_dict: ProductOrZipSweepLike) -> Product:
     """Cartesian product of sweeps from a dictionary.
 
@@ -632,7 +637,7 @@ def dict_to_product_sweep(factor_dict: ProductOrZipSweepLike) -> Product:
         Cartesian product of the sweeps.
     """
     return Product(
-        *(Points(k, v if isinstance(v, Sequence) else [v]) for k, v in factor_dict.items())
+        *(Points(k, v if _is_value_sequence(v) else [v]) for k, v in factor_dict.items())
     )
 
 
@@ -651,7 +656,7 @@ def dict_to_zip_sweep(factor_dict: ProductOrZipSweepLike) -> Zip:
     """
     return Zip(
         *(
-            Points(k, cast(float, v) if isinstance(v, Sequence) else [v])  # type: ignore[arg-type]
+            Points(k, cast(float, v) if _is_value_sequence(v) else [v])  # type: ignore[arg-type]
             for k, v in factor_dict.items()
         )
     )
